@@ -35,3 +35,5 @@ INFO = dict(
     outside=["shapes outside the catalogue's sub-shape lattices"],
     assumptions=["weights >= 0"],
 )
+
+INFO["technique"] = 'solver-driven symbolic execution of the transformations (one path per zero pattern / vanishing closure entry decided by z3); structural postconditions against Boolean reference sets; bounded'
